@@ -250,7 +250,7 @@ class MultiGeoPoint(MultiShapeBase, PointLikeMixin, SimpleShapeMixin):
         }
 
     def __hash__(self) -> int:
-        return hash(tuple(hash(x) for x in self.geoshapes))
+        return hash(frozenset(hash(x) for x in self.geoshapes))
 
     def __repr__(self):
         pl = "s" if len(self.geoshapes) != 1 else ""
@@ -279,7 +279,7 @@ class MultiGeoPoint(MultiShapeBase, PointLikeMixin, SimpleShapeMixin):
     def copy(self) -> 'MultiGeoPoint':
         return MultiGeoPoint(
             [x.copy() for x in self.geoshapes],
-            dt=self.dt,
+            dt=self.dt.copy() if self.dt else None,
             properties=copy.deepcopy(self._properties)
         )
 
@@ -487,7 +487,7 @@ class MultiGeoPolygon(MultiShapeBase, PolygonLikeMixin, SimpleShapeMixin):
     def copy(self) -> 'MultiGeoPolygon':
         return MultiGeoPolygon(
             [x.copy() for x in self.geoshapes],
-            dt=self.dt,
+            dt=self.dt.copy() if self.dt else None,
             properties=copy.deepcopy(self._properties)
         )
 
